@@ -41,6 +41,13 @@ def strat_case(draw, tier):
     ncv = draw(st.integers(0, 3)) if d == 1 else 0
     controls = [{"kind": ["forward", "call", "put"][i], "strike": draw(_f(0.5, 250.0)), "price": draw(_f(-50.0, 200.0))}
                 for i in range(ncv)]
+    # controls with one strike and one price per payoff component (vector payoffs): component k of the payoff is then
+    # adjusted with component k of every control
+    if ncv and pdim > 1 and kind != "forward" and draw(st.booleans()):
+        for i, c in enumerate(controls):
+            c["kind"] = ["call", "put", "call"][i]
+            c["strikes"] = [draw(_f(0.5, 250.0)) for _ in range(pdim)]
+            c["prices"] = [draw(_f(-50.0, 200.0)) for _ in range(pdim)]
     return {"n": n, "d": d, "rep": rep, "vals": vals, "kind": kind, "strikes": strikes,
             "notional": draw(st.sampled_from([1.0, 0.01, 1000.0, 37.5])), "df": draw(_f(0.3, 1.0)),
             "controls": controls, "price_is_sample_mean": draw(st.booleans()) if ncv else False,
@@ -99,13 +106,24 @@ def body(case):
     X = None
     prices = None
     cv = None
-    if case["controls"]:
+    vec = bool(case["controls"]) and "strikes" in case["controls"][0]
+    if case["controls"] and not vec:
         X = np.array([[float(_payoff(c["kind"], [c["strike"]], x)[0]) * df for c in case["controls"]] for x in und])
         prices = [c["price"] for c in case["controls"]]
         if case["price_is_sample_mean"]:
             prices = [float(v) for v in X.mean(axis=0)]
         cv = ControlVariates([Product(payoff_underlying=Spot(), payoff=mk_payoff(c["kind"], [c["strike"]]), maturity=T)
                               for c in case["controls"]], prices)
+    elif vec:
+        # X3[path, control, component]
+        X3 = np.array([[np.asarray(_payoff(c["kind"], c["strikes"], x), dtype=float) * df for c in case["controls"]] for x in und])
+        prices3 = np.array([c["prices"] for c in case["controls"]], dtype=float)  # (control, component)
+        if case["price_is_sample_mean"]:
+            prices3 = X3.mean(axis=0)
+        cv = ControlVariates([Product(payoff_underlying=Spot(), payoff=mk_payoff(c["kind"], c["strikes"]), maturity=T)
+                              for c in case["controls"]], [np.array(p) for p in prices3])
+        X = X3[:, :, 0]
+        prices = [float(v) for v in prices3[:, 0]]
     config = ConfigurationStandard(mc_paths=n, seed=None, control_variates=cv,
                                    activate_spot_statistics=case["spot_stats"], nb_of_processes=1)
     engine = Engine(configuration=config, process=proc)
@@ -153,6 +171,13 @@ def body(case):
     cond_ok = (not guard) and np.linalg.cond(sx) < 1e4
     for k in range(Y.shape[1]):
         y = Y[:, k]
+        if vec:  # component k of the payoff against component k of every control
+            X = X3[:, :, k]
+            prices = [float(v) for v in prices3[:, k]]
+            xc = X - X.mean(axis=0)
+            sx = xc.T @ xc / n
+            guard = np.min(np.abs(sx)) < 1e-12
+            cond_ok = (not guard) and np.linalg.cond(sx) < 1e4
         if guard:
             expect = y
         elif cond_ok:
@@ -182,6 +207,7 @@ def body(case):
 def classify(case):
     pdim = len(case["strikes"])
     labels = [f"d={case['d']}", f"payoff-dim={'1' if pdim == 1 else '2+'}", f"controls={len(case['controls'])}",
+              "vector-controls" if case["controls"] and "strikes" in case["controls"][0] else "scalar-or-no-controls",
               case["rep"], case["kind"], "n=1" if case["n"] == 1 else ("n<=6" if case["n"] <= 6 else "n>6")]
     if case["price_is_sample_mean"]:
         labels.append("price=sample-mean")
